@@ -212,7 +212,23 @@ func groundInstances(assume []*Term, roots []*Term) []*Term {
 				bound[bv] = true
 			}
 			memo := map[*Term]bool{}
-			for _, trig := range triggersOf(s.q) {
+			trigs := triggersOf(s.q)
+			if len(trigs) == 0 && len(s.q.Bound) == 2 {
+				// no single sub-term mentions both variables (pairwise facts such as
+				// forall j k. j < k ==> s[j].end < s[k].start): candidate values per variable
+				// from single-variable triggers, combined as a (capped) cross product
+				for _, inst := range crossInstances(s, grounds) {
+					if inst.IsTrue() || seenInst[inst] {
+						continue
+					}
+					seenInst[inst] = true
+					added = append(added, inst)
+					if len(out)+len(added) > 600 {
+						return append(out, added...)
+					}
+				}
+			}
+			for _, trig := range trigs {
 				for _, g := range grounds {
 					if g.Op != trig.Op || g.Sort != trig.Sort {
 						continue
@@ -247,4 +263,106 @@ func groundInstances(assume []*Term, roots []*Term) []*Term {
 		}
 	}
 	return out
+}
+
+// expandExists rewrites every existential sub-term  exists k. B(k)  of t into the equivalent
+// B(g1) || ... || B(gn) || exists k. B(k)  for ground instances g found by trigger matching
+// against the ground terms of the query. The rewriting is an equivalence, so it is valid in any
+// polarity; it hands the solvers the witnesses they rarely find by themselves.
+func expandExists(t *Term, context []*Term) *Term {
+	if !hasQuantifier(t, map[*Term]bool{}) {
+		return t
+	}
+	// ground trigger terms of the whole query
+	allTerms := append(append([]*Term{}, context...), t)
+	allBound := map[*Term]bool{}
+	{
+		s2 := map[*Term]bool{}
+		var pre func(x *Term)
+		pre = func(x *Term) {
+			if s2[x] {
+				return
+			}
+			s2[x] = true
+			for _, b := range x.Bound {
+				allBound[b] = true
+			}
+			for _, a := range x.Args {
+				pre(a)
+			}
+		}
+		for _, x := range allTerms {
+			pre(x)
+		}
+	}
+	var grounds []*Term
+	seen := map[*Term]bool{}
+	gmemo := map[*Term]bool{}
+	var collect func(x *Term)
+	collect = func(x *Term) {
+		if seen[x] {
+			return
+		}
+		seen[x] = true
+		if isTriggerOp(x.Op) && !containsAny(x, allBound, gmemo) {
+			grounds = append(grounds, x)
+		}
+		for _, a := range x.Args {
+			collect(a)
+		}
+	}
+	for _, x := range allTerms {
+		collect(x)
+	}
+	cache := map[*Term]*Term{}
+	var rec func(x *Term) *Term
+	rec = func(x *Term) *Term {
+		if r, ok := cache[x]; ok {
+			return r
+		}
+		r := x
+		if x.Op == "exists" {
+			bound := map[*Term]bool{}
+			for _, bv := range x.Bound {
+				bound[bv] = true
+			}
+			memo := map[*Term]bool{}
+			var insts []*Term
+			seenI := map[*Term]bool{}
+			for _, trig := range triggersOf(x) {
+				for _, g := range grounds {
+					if g.Op != trig.Op || g.Sort != trig.Sort {
+						continue
+					}
+					b := map[*Term]*Term{}
+					if !matchTerm(trig, g, bound, b, memo) || len(b) != len(bound) {
+						continue
+					}
+					in := Subst(x.Args[0], b)
+					if !seenI[in] && len(insts) < 40 {
+						seenI[in] = true
+						insts = append(insts, in)
+					}
+				}
+			}
+			if len(insts) > 0 {
+				r = Or(append(insts, x)...)
+			}
+		} else if len(x.Args) > 0 && x.Op != "forall" {
+			na := make([]*Term, len(x.Args))
+			changed := false
+			for i, a := range x.Args {
+				na[i] = rec(a)
+				if na[i] != a {
+					changed = true
+				}
+			}
+			if changed {
+				r = rebuild(x, na, x.Pats)
+			}
+		}
+		cache[x] = r
+		return r
+	}
+	return rec(t)
 }
